@@ -1,0 +1,16 @@
+//go:build verif
+
+package distance
+
+// Exported wrappers around the unexported building blocks of the float
+// distances, only compiled with the verif build tag.
+
+// VerifDotImpl is the dot product implementation selected at start-up (the
+// assembly kernel when the CPU has AVX2+FMA, otherwise the pure Go loop).
+func VerifDotImpl(x, y []float32) float32 { return dotProductImpl(x, y) }
+
+// VerifDotPureGo is the pure Go reference loop of the dot product.
+func VerifDotPureGo(x, y []float32) float32 { return dotProductPureGo(x, y) }
+
+// VerifL2PureGo is the pure Go reference loop of the squared euclidean distance.
+func VerifL2PureGo(x, y []float32) float32 { return squaredEuclideanDistancePureGo(x, y) }
